@@ -292,6 +292,8 @@ def _generic_axes(rng, cls, o):
     o['snap_truth'] = bool(rng.random() < 0.15) and not o['edge']
     o['init_exact'] = None if (rng.random() < 0.8 or o['fixed'] or o.get('int_columns') or o['finder']
                                or o.get('exact_clusters')) else _pick(rng, ['integer', 'half'])
+    if o['init_exact'] == 'half' and (o['bkg'] == 'column_per_source' or o['mask'] == 'starved'):
+        o['init_exact'] = 'integer'       # (the generator lays pedestals / masks over the fit window itself)
     # (x) provenance: model copied / evaluated before, init table a slice of a larger table
     o['provenance'] = None if rng.random() < 0.75 else _pick(rng, ['model_used_before', 'table_slice', 'both'])
     # (xi) an all-False mask owned by the caller
@@ -879,7 +881,7 @@ def run_case(case):
         for junk in (head, tail):
             for c in junk.colnames:
                 if junk[c].dtype.kind == 'f':
-                    junk[c] = junk[c] * 0 - 77.0
+                    junk[c] = junk[c] * 0 - 77.0 * (getattr(junk[c], 'unit', None) or 1)
         big = vstack([head, head, init, tail])
         call_init = big[2:2 + n]
         case.note('axis2_provenance_init_table_is_slice')
@@ -1249,7 +1251,7 @@ def run_case(case):
 
     s.undecided = bool(undecided)
     # qfit / cfit from their documented definitions (meaningful only when residuals are not round-off)
-    if o['perturbed'] and grp_ok and not amb.any():
+    if o['perturbed'] and grp_ok and O.half_integer_free(xi) and O.half_integer_free(yi):
         _check_metrics(case, p, tbl, s, o, model, data, mask, error, facts, R, fitgroup, mech)
 
     # ======================================================================================
@@ -1274,7 +1276,8 @@ def run_case(case):
         # image-based models: the default rendering window (psf_shape=None) is the array footprint, which depends on
         # the (y, x) oversampling factors and the array size along each axis: always looked at
         _default_window(case, p, tbl, s, o, model, call_data, data, dict(mech, relation='model_image'))
-    rels = ['separate', _pick(rng, ['permute', 'scale_k', 'scale_k', 'iterative', 'model_image', 'separate'])]
+    rels = ['separate', _pick(rng, ['permute', 'scale_k', 'scale_k', 'iterative', 'model_image', 'separate', 'dtype',
+                                    'dtype'])]
     if o['bkg'] in ('column', 'column_per_source'):
         rels.append('model_image')
     if o['nddata'] or o['units']:
@@ -1289,6 +1292,8 @@ def run_case(case):
         elif rel == 'scale_k':
             _rel_scale(case, o, s, model, grouper, data_obj, mask_obj, err_obj, init, names, bounds, kw, tbl, gsize, R, rel,
                        grp_ok, mech, limited_grp)
+        elif rel == 'dtype':
+            _rel_dtype(case, o, s, model, grouper, init, names, bounds, kw, mech)
         elif rel == 'iterative':
             _rel_iterative(case, o, s, model, grouper, call_data, mask, call_err, init, bounds, kw, tbl, mech)
         elif rel == 'model_image':
@@ -1551,6 +1556,39 @@ def _rel_scale(case, o, s, model, grouper, data, mask, error, init, names, bound
             case.check(d <= rt, 'image_times_k_scales_fluxes_by_k', dict(sm, fit=tag), k=k, dev=float(d))
             case.dev(f'scale_k_pos_{tag}', dp)
             case.check(dp <= pt, 'image_times_k_keeps_positions', dict(sm, fit=tag), k=k, dev=float(dp))
+
+
+DTYPE_PEAKS = {'uint8': 200.0, 'int8': 120.0, 'uint16': 6.0e4, 'int16': 3.2e4, 'uint32': 4.0e9, 'int32': 2.1e9,
+               'uint64': 2.0 ** 55, 'int64': 2.0 ** 40, 'float32': 1.0, 'float16': 1.0e3}
+
+
+def _rel_dtype(case, o, s, model, grouper, init, names, bounds, kw, mech):
+    """Axis (vii): the image in a narrow / unsigned dtype gives what the same numbers give as float64 (fit table,
+    model and residual images): nothing may be accumulated, subtracted or wrapped in the narrow dtype."""
+    rng = case.rng
+    dt = _pick(rng, list(DTYPE_PEAKS))
+    scale = DTYPE_PEAKS[dt] / float(np.max(np.abs(s.data)))
+    if np.min(s.data) < 0 and dt.startswith('u'):
+        return                                              # negative source in the scene: no unsigned form
+    scene = s.data * scale
+    narrow = (np.round(scene) if np.dtype(dt).kind in 'iu' else scene).astype(dt)
+    wide = narrow.astype(np.float64)
+    i2 = init.copy()
+    i2[names[2]] = _col(init, names[2]) * scale
+    if 'local_bkg' in i2.colnames:
+        i2.remove_column('local_bkg')
+    kw2 = {k_: v for k_, v in kw.items() if k_ not in ('finder', 'localbkg_estimator', 'aperture_radius')}
+    pa, ta = _run_phot(o, s, model, grouper, narrow, None, None, i2, bounds, kw2)
+    pb, tb = _run_phot(o, s, model, grouper, wide, None, None, i2, bounds, kw2)
+    case.note('axis2_dtype_' + dt)
+    dm = dict(mech, relation='narrow_dtype', dtype=dt)
+    for c in tb.colnames:
+        case.close(_col(ta, c), _col(tb, c), 'narrow_dtype_image_equals_float64_image', mech=dict(dm, col=(
+            c if c in COMPARE_COLS + ['id', 'group_id'] else 'shape')))
+    ps = int(_pick(rng, [5, 9]))
+    ra = np.asarray(pa.make_residual_image(narrow, psf_shape=ps), dtype=float)
+    rb = np.asarray(pb.make_residual_image(wide, psf_shape=ps), dtype=float)
+    case.close(ra, rb, 'narrow_dtype_image_equals_float64_image', mech=dict(dm, col='residual_image'))
 
 
 def _rel_iterative(case, o, s, model, grouper, data, mask, error, init, bounds, kw, tbl, mech, finder=None, aper=None):
